@@ -916,6 +916,31 @@ fn gen_reserve(rng: &mut Rng, tier: Tier) -> Vec<String> {
         }
         out.push(line);
     }
+    // wide footprints (8..24 keys in one set) against single-key footprints that overlap them at the
+    // largest / smallest / a middle key — set intersection shortcuts for skewed sizes must stay exact
+    for case in 0..(if thorough { 240 } else { 48 }) {
+        let k = 8 + (case % 17) as u64;
+        let class = (case / 2) % 3;
+        let hit = match (case / 6) % 3 {
+            0 => k - 1,
+            1 => 0,
+            _ => k / 2,
+        };
+        let wide_write = case % 2 == 1;
+        let mk = |j: u64, w: bool| match class {
+            0 => Claim::Node(0, 100 + j, w),
+            1 => Claim::Edge(0, 100 + j, w),
+            _ => Claim::Port(0, 100 + j, w),
+        };
+        let wide: Vec<Claim> = (0..k).map(|j| mk(j, wide_write)).collect();
+        let single_hit = vec![mk(hit, true)];
+        let single_miss = vec![mk(k + 3, true)];
+        let m = pick_mask(rng, true);
+        for kind in ["radix", "legacy"] {
+            out.push(reserve_line(kind, &[fp_of(&wide, m), fp_of(&single_hit, m), fp_of(&single_miss, m)], rng, true));
+            out.push(reserve_line(kind, &[fp_of(&single_hit, m), fp_of(&wide, m)], rng, false));
+        }
+    }
     out
 }
 
